@@ -236,6 +236,15 @@ func chunkingsFor(in []byte, idx int) [][]int {
 			res = append(res, []int{4095, 1}, []int{4096}, []int{4094, 3}, []int{2000, 2000, 95, 2})
 		}
 	}
+	// empty reads — Read returning (0, nil) — first, between and several in a row: the reader entry points
+	// must treat them as no read at all (C03; before /repo c109a1a an empty FIRST read switched the byte
+	// order mark handling off). Always for inputs that start like a BOM, one input in five otherwise.
+	if hasBOMPrefix(in) || idx%5 == 0 {
+		res = append(res, []int{0}, []int{0, 0, 1, 0}, []int{1, 0, 0, 1, 0, 1, 0, 0, 2})
+		if hasBOMPrefix(in) {
+			res = append(res, []int{0, 1, 1, 1}, []int{0, 3}, []int{2, 0, 1, 0})
+		}
+	}
 	return res
 }
 
